@@ -127,6 +127,9 @@ fn run_case(rng: &mut Rng, codes: &Codes, hist: &mut BTreeMap<&'static str, u64>
     let mut expect = Vec::new();
     let mut queries = Vec::new();
     let mut oracle_mismatch = None;
+    // (account, slot) storage reads and account reads of the current transaction
+    let mut slot_reads: Vec<(usize, usize)> = Vec::new();
+    let mut basic_reads: Vec<usize> = Vec::new();
     let mut kinds = Vec::new();
 
     // one read through both sides; records the query
@@ -138,6 +141,7 @@ fn run_case(rng: &mut Rng, codes: &Codes, hist: &mut BTreeMap<&'static str, u64>
             if r != o && oracle_mismatch.is_none() {
                 oracle_mismatch = Some(format!("tx {} reads account {}: IncarnationDb {r}, revm State {o}", $i, $a));
             }
+            basic_reads.push($a);
             lines.push(format!("q b {} {}", $i, $a));
             queries.push(format!("q b {} {}", $i, $a));
             expect.push(format!("{r} {o}"));
@@ -168,6 +172,7 @@ fn run_case(rng: &mut Rng, codes: &Codes, hist: &mut BTreeMap<&'static str, u64>
             if real != orc && oracle_mismatch.is_none() {
                 oracle_mismatch = Some(format!("tx {} reads slot {} of account {}: IncarnationDb {real}, revm State {orc}", $i, k_, a_));
             }
+            slot_reads.push((a_, k_));
             lines.push(format!("q s {} {} {}", $i, a_, k_));
             queries.push(format!("q s {} {} {}", $i, a_, k_));
             expect.push(format!("{real} {orc}"));
@@ -178,6 +183,8 @@ fn run_case(rng: &mut Rng, codes: &Codes, hist: &mut BTreeMap<&'static str, u64>
     let n = 1 + rng.below(7);
     for i in 0..n {
         idb.begin(i, 0);
+        slot_reads.clear();
+        basic_reads.clear();
         lines.push("tx".to_owned());
         // extra reads
         for _ in 0..rng.below(3) {
@@ -314,6 +321,37 @@ fn run_case(rng: &mut Rng, codes: &Codes, hist: &mut BTreeMap<&'static str, u64>
             lines.push(format!("ws {i}"));
             queries.push(format!("ws {i}"));
             expect.push(ws.join(" "));
+        }
+        // the read set must name, for every read, the version that was read: the reset marker AND
+        // the slot for a storage read, the account entry for an account read (it is what
+        // validation re-resolves)
+        {
+            use grevm::verif::drivers::Version;
+            let ver = |kind: u8, a: usize, k: usize| -> String {
+                accesses
+                    .read_set
+                    .iter()
+                    .find(|(loc, _)| loc.kind == kind && loc.address == addr(a) && (kind != 1 || loc.slot == U256::from(k)))
+                    .map_or("missing".to_owned(), |(_, v)| match v {
+                        Version::Storage => "-".to_owned(),
+                        Version::Mv(t, _) => t.to_string(),
+                        Version::Beneficiary(_) => "ben".to_owned(),
+                    })
+            };
+            slot_reads.sort();
+            slot_reads.dedup();
+            for (a, k) in &slot_reads {
+                lines.push(format!("rv s {i} {a} {k}"));
+                queries.push(format!("rv s {i} {a} {k}"));
+                expect.push(format!("R{} S{}", ver(2, *a, 0), ver(1, *a, *k)));
+            }
+            basic_reads.sort();
+            basic_reads.dedup();
+            for a in &basic_reads {
+                lines.push(format!("rv b {i} {a}"));
+                queries.push(format!("rv b {i} {a}"));
+                expect.push(format!("B{}", ver(0, *a, 0)));
+            }
         }
         state.commit(changes);
     }
